@@ -18,9 +18,14 @@ class C20(Prop):
                   "succeeds only when no emission holds an upgraded reference (so nobody is inside the recorder) and returns it undropped; "
                   "after recovery or after the handle is dropped and the last in-flight emission released, every upgrade fails (inert); "
                   "no call enters the recorder once it is Taken/Finalised; drops <= 1, = 1 exactly when finalised by a release, never "
-                  "when recovered. Tied to /repo by replaying schedules on the real code through yield points.")
+                  "when recovered. C20_spec_ok_on_model: the executable property spec_ok (all seven clauses, including the walk over "
+                  "the step trace that decides for each upgrade, from the final results and the positions of the last try_unwrap / "
+                  "handle-drop steps, whether it had to succeed) holds of the model's own run of every case with at most one owner, "
+                  "for every schedule and the round-robin tail. Tied to /repo by replaying schedules on the real code through yield points.")
     level_note = ("SC interleaving; Arc/Weak counters are std's and are modelled as one atomic step each (upgrade, drop, try_unwrap). "
-                  "Termination of the into_inner spin loop (liveness) is not claimed. The install() failure path is exercised on the real "
+                  "Termination of the into_inner spin loop (liveness) is not claimed (runs cut off by the round-robin fuel with the owner "
+                  "still spinning are covered by C20_spec_ok_on_model; their unfinished emissions are unconstrained). No partial theorem "
+                  "remains: spec_ok is proved on the model in full. The install() failure path is exercised on the real "
                   "code (global recorder already set) on every run, not modelled beyond build+into_inner.")
     rule = ("1-3 emitter threads with 1-3 emissions each (cycling through the six Recorder methods), optionally one owner thread that "
             "recovers or drops the handle, random schedule + round-robin tail; non-trivial = an owner step interleaved between an "
